@@ -54,17 +54,23 @@ impl Shape {
 }
 
 /// Workspace of a generated program: FileId(0) = the first module (`m1`), FileId(1 + i) = the i-th further (library) module,
-/// then the gleam.toml file(s).  Module names may be paths (`sub/m2`).
+/// then the gleam.toml file(s).  Module names may be paths (`sub/m2`).  A name `@twin/<module>` puts the file into the OTHER
+/// source directory of its package (`test/` besides `src/`): a second file that maps to the same module name (which Gleam
+/// rejects as a duplicate module; an editor workspace can be in that state, and every file of it can be queried).
+/// A module belongs to `app` if it is the first one or its twin, to `lib` otherwise.
 pub fn gen_workspace(shape: Shape, modules: &[(&str, &str)]) -> Ws {
     let mut host = AnalysisHost::new();
     let mut change = Change::default();
     let mut files: Vec<(String, String)> = vec![];
     let n = modules.len() as u32;
+    let split = |name: &str| -> (bool, String) { match name.strip_prefix("@twin/") { Some(r) => (true, r.to_string()), None => (false, name.to_string()) } };
+    let first = modules.first().map(|m| split(m.0).1).unwrap_or_default();
     match shape {
         Shape::OnePackage => {
             let mut set = FileSet::default();
             for (n, t) in modules {
-                files.push((format!("/test/{n}.gleam"), t.to_string()));
+                let (twin, name) = split(n);
+                files.push((format!("/{}/{name}.gleam", if twin { "src" } else { "test" }), t.to_string()));
             }
             files.push(("/gleam.toml".to_string(), String::new()));
             for (i, (p, t)) in files.iter().enumerate() {
@@ -80,7 +86,9 @@ pub fn gen_workspace(shape: Shape, modules: &[(&str, &str)]) -> Ws {
             let mut app = FileSet::default();
             let mut lib = FileSet::default();
             for (i, (n, t)) in modules.iter().enumerate() {
-                files.push((format!("/{}/src/{n}.gleam", if i == 0 { "app" } else { "lib" }), t.to_string()));
+                let (twin, name) = split(n);
+                let pkg = if i == 0 || name == first { "app" } else { "lib" };
+                files.push((format!("/{pkg}/{}/{name}.gleam", if twin { "test" } else { "src" }), t.to_string()));
             }
             files.push(("/app/gleam.toml".to_string(), "name = \"app\"\nversion = \"1.0.0\"\n\n[dependencies]\nlib = { path = \"../lib\" }\n".to_string()));
             files.push(("/lib/gleam.toml".to_string(), "name = \"lib\"\nversion = \"1.0.0\"\n".to_string()));
